@@ -1,26 +1,22 @@
 /* M4' : small prime field instantiation of the mod-p layer of sm2_z256.c.  F_p' with p' = PF (prime, = 3 mod 4),
- * elements in limb 0, Montgomery radix 2 (mont(a) = 2a, mont_mul(a,b) = ab/2).  The real point formulas, the on-curve
- * test and get_xy run on top.  SM2_Z256_MODP_MONT_ONE is redirected to mont(1) = 2 by the harness. */
+ * elements in limb 0, Montgomery radix 2 (mont(a) = 2a, mont_mul(a,b) = ab/2), table-driven multiplication
+ * (include/smallf.h).  The real point formulas, the on-curve test and get_xy run on top.  SM2_Z256_MODP_MONT_ONE is
+ * redirected to mont(1) = 2 by the harness. */
 #include <stdio.h>
 #include <string.h>
 #include <gmssl/sm2_z256.h>
 #include "verif.h"
-#ifndef PF
-#define PF 13
-#endif
-#define INV2 ((PF + 1) / 2)
-typedef unsigned __CPROVER_bitvector[20] sv;   /* all intermediate values are < PF^2 * (PF+1)/2 < 2^20: narrow arithmetic keeps the SAT problem small */
-static sv g(const uint64_t a[4]) { __CPROVER_assert(a[1] == 0 && a[2] == 0 && a[3] == 0 && a[0] < PF, "M4': field element reduced"); return (sv)a[0]; }
-static void s(uint64_t r[4], sv v) { r[0] = (uint64_t)(v % PF); r[1] = r[2] = r[3] = 0; }
-uint64_t smallp_inv(uint64_t a) { for (sv i = 1; i < PF; i++) if (((sv)a * i) % PF == 1) return (uint64_t)i; return 0; }
-void sm2_z256_modp_add(sm2_z256_t r, const sm2_z256_t a, const sm2_z256_t b) { s(r, g(a) + g(b)); }
-void sm2_z256_modp_sub(sm2_z256_t r, const sm2_z256_t a, const sm2_z256_t b) { s(r, g(a) + PF - g(b)); }
-void sm2_z256_modp_dbl(sm2_z256_t r, const sm2_z256_t a) { s(r, 2 * g(a)); }
-void sm2_z256_modp_tri(sm2_z256_t r, const sm2_z256_t a) { s(r, 3 * g(a)); }
-void sm2_z256_modp_neg(sm2_z256_t r, const sm2_z256_t a) { s(r, PF - g(a)); }
-void sm2_z256_modp_haf(sm2_z256_t r, const sm2_z256_t a) { s(r, g(a) * INV2); }
-void sm2_z256_modp_mont_mul(sm2_z256_t r, const sm2_z256_t a, const sm2_z256_t b) { s(r, g(a) * g(b) * INV2); }
-void sm2_z256_modp_mont_sqr(sm2_z256_t r, const sm2_z256_t a) { s(r, g(a) * g(a) * INV2); }
-void sm2_z256_modp_to_mont(const sm2_z256_t a, uint64_t r[4]) { s(r, 2 * g(a)); }
-void sm2_z256_modp_from_mont(sm2_z256_t r, const sm2_z256_t a) { s(r, g(a) * INV2); }
-void sm2_z256_modp_mont_inv(sm2_z256_t r, const sm2_z256_t a) { s(r, 4 * (sv)smallp_inv((uint64_t)g(a))); }   /* a = 2x -> 2/x = 4/a */
+#include "smallf.h"
+static sf g(const uint64_t a[4]) { __CPROVER_assert(a[1] == 0 && a[2] == 0 && a[3] == 0 && a[0] < PF, "M4': field element reduced"); return (sf)a[0]; }
+static void s(uint64_t r[4], sf v) { r[0] = v; r[1] = r[2] = r[3] = 0; }
+void sm2_z256_modp_add(sm2_z256_t r, const sm2_z256_t a, const sm2_z256_t b) { s(r, sf_add(g(a), g(b))); }
+void sm2_z256_modp_sub(sm2_z256_t r, const sm2_z256_t a, const sm2_z256_t b) { s(r, sf_sub(g(a), g(b))); }
+void sm2_z256_modp_dbl(sm2_z256_t r, const sm2_z256_t a) { sf x = g(a); s(r, sf_add(x, x)); }
+void sm2_z256_modp_tri(sm2_z256_t r, const sm2_z256_t a) { sf x = g(a); s(r, sf_add(sf_add(x, x), x)); }
+void sm2_z256_modp_neg(sm2_z256_t r, const sm2_z256_t a) { s(r, sf_neg(g(a))); }
+void sm2_z256_modp_haf(sm2_z256_t r, const sm2_z256_t a) { s(r, sf_haf(g(a))); }
+void sm2_z256_modp_mont_mul(sm2_z256_t r, const sm2_z256_t a, const sm2_z256_t b) { s(r, sf_haf(sf_mul(g(a), g(b)))); }
+void sm2_z256_modp_mont_sqr(sm2_z256_t r, const sm2_z256_t a) { sf x = g(a); s(r, sf_haf(sf_mul(x, x))); }
+void sm2_z256_modp_to_mont(const sm2_z256_t a, uint64_t r[4]) { sf x = g(a); s(r, sf_add(x, x)); }
+void sm2_z256_modp_from_mont(sm2_z256_t r, const sm2_z256_t a) { s(r, sf_haf(g(a))); }
+void sm2_z256_modp_mont_inv(sm2_z256_t r, const sm2_z256_t a) { s(r, sf_mul(4 % PF, sf_inv(g(a)))); }   /* a = 2x -> 2/x = 4/a */
